@@ -168,3 +168,126 @@ def refine(lsel: int, rsel: int, rl: bool, rr: bool) -> bool:
         if va is not CFV.UNKNOWN and va is not vb:
             return xs.fail(f"{desc}: definite result {va.name} changed to {vb.name}", lsel=lsel, rsel=rsel, rl=rl, rr=rr)
     return True
+
+
+# =====================================================================================================================
+# C07 step: the collected format-constraint expression produced by each real callback
+# =====================================================================================================================
+FCE_POOL_L = (None, "[901]", "[901] U [902]", "([901] O [902]) U [903]", "[901] X ([902] O [903])", "([901] O [902])", "([901] U [902]) O ([901] X [903])")
+FCE_POOL_R = tuple(None if x is None else x.replace("901", "904").replace("902", "905").replace("903", "906") for x in FCE_POOL_L)
+FKEYS = ("901", "902", "903", "904", "905", "906", "907", "908")
+F_LO = 0
+F_HI = 1
+
+
+def _operands(side: str):
+    rck, hk, fk = ("1", "501", "907") if side == "l" else ("2", "502", "908")
+    pool = FCE_POOL_L if side == "l" else FCE_POOL_R
+    out = []
+    for v in VALS[:3]:
+        out.append((lambda v=v: RequirementConstraint(condition_key=rck, conditions_fulfilled=v), "rc", v.name, None))
+    out.append((lambda: Hint(condition_key=hk, hint="Hinweis"), "hint", "NEUTRAL", None))
+    out.append((lambda: UnevaluatedFormatConstraint(condition_key=fk), "fc", "NEUTRAL", f"[{fk}]"))
+    for v in VALS:
+        for fce in pool:
+            out.append((lambda v=v, fce=fce: EvaluatedComposition(conditions_fulfilled=v, hint=None, format_constraints_expression=fce), "comp", v.name, fce))
+    return out
+
+
+OPERANDS_L = _operands("l")
+OPERANDS_R = _operands("r")
+NOPER = len(OPERANDS_L)
+
+
+def _table(expr):
+    """truth table (64 rows over 901..908 -> restricted to 8 keys = 256 rows) of a format-constraint expression string"""
+    from vf import env
+
+    if expr is None:
+        return None
+    tree = env.real_parser("condition").parse(expr)
+    foreign = [k for k in refsem.fc_keys(tree) if k not in FKEYS]
+    if foreign:
+        raise refsem.OutOfScope(f"foreign keys {foreign}")
+    rows = []
+    for bits in range(2 ** len(FKEYS)):
+        sigma = {k: bool((bits >> i) & 1) for i, k in enumerate(FKEYS)}
+        rows.append(refsem.fc_bool(tree, sigma))
+    return rows
+
+
+def _comb(op, a, b):
+    if a is None:
+        return b
+    if b is None:
+        return a
+    f = (lambda x, y: x and y, lambda x, y: x or y, lambda x, y: x != y)[op]
+    return [f(x, y) for x, y in zip(a, b)]
+
+
+_FCE_CASES = []
+
+
+def fce_cases():
+    """all (op, li, ri) inside the quantifier (valid combination, then_also attaching a single format constraint)"""
+    if _FCE_CASES:
+        return _FCE_CASES
+    for op in range(4):
+        for li, (lf, lk, lv, lfce) in enumerate(OPERANDS_L):
+            for ri, (rf, rk, rv, rfce) in enumerate(OPERANDS_R):
+                exp = _expected(op, lf(), lk, rf(), rk)
+                if exp is not None and exp[0] != "invalid":
+                    _FCE_CASES.append((op, li, ri))
+    return _FCE_CASES
+
+
+def fce_step(idx: int) -> bool:
+    """
+    pre: F_LO <= idx < F_HI
+    post: _
+    """
+    idx = xs.R(idx)
+    op, li, ri = fce_cases()[idx]
+    lf, lk, lv, lfce = OPERANDS_L[li]
+    rf, rk, rv, rfce = OPERANDS_R[ri]
+    l, r = lf(), rf()
+    exp = _expected(op, l, lk, r, rk)
+    if exp is None or exp[0] == "invalid":
+        return True
+    got = _call(op, l, r)
+    xs.reached()
+    desc = f"{CALLBACKS[op]}({lk}:{lv} fce={lfce!r}, {rk}:{rv} fce={rfce!r})"
+    if got[0] != "ok":
+        return xs.fail(f"{desc} raised {type(got[1]).__name__}", idx=idx)
+    fce = got[1].format_constraints_expression
+    with xs.nt():
+        verdict = None
+        try:
+            tl, tr = _table(lfce), _table(rfce)
+            if op < 3:
+                wants = [_comb(op, tl, tr)]
+            else:
+                (ft, ot, ok, ov) = (tl, tr, rk, rv) if lk == "fc" else (tr, tl, lk, lv)
+                if ok == "hint" or ov == "FULFILLED":
+                    wants = [_comb(0, ft, ot)]
+                else:
+                    wants = [None, ot]  # not effective: dropped entirely, or the partner's own constraints kept
+            if not fce:
+                if all(w is not None for w in wants):
+                    verdict = "no format-constraint expression collected although the operands contribute one"
+            else:
+                try:
+                    tg = _table(fce)
+                except refsem.OutOfScope as o:
+                    tg = None
+                    verdict = f"collected expression {fce!r} is not a pure U/O/X expression over the operands' format-constraint keys ({o})"
+                except Exception as e:  # pylint:disable=broad-except
+                    tg = None
+                    verdict = f"collected expression {fce!r} is not well-formed ({type(e).__name__})"
+                if tg is not None and not any(w is not None and tg == w for w in wants):
+                    verdict = f"collected expression {fce!r} does not mean '{'UOX'[op] if op < 3 else 'attach'}' of the operands' expressions"
+        except Exception as e:  # pylint:disable=broad-except
+            raise xs.HarnessError(f"oracle failed: {type(e).__name__}: {e}") from e
+    if verdict:
+        return xs.fail(f"{desc}: {verdict}", idx=idx)
+    return True
